@@ -26,6 +26,31 @@ def maybe_replay(ctx, level):
         ctx.violation(v["key"], v["what"], v.get("replay"))
     common.finish(ctx, level, dict(traces_validated_against_impl=res["scripts"], samples=[d["script"][:2]]))
 
+def run_fixed(ctx):
+    """hand-written regression scripts (spec/scripts/net_*.json: one JSON object with script + config per file): sequences
+    that random sampling reaches too rarely.  Returns the harness violations."""
+    import glob
+    binp = ctx.go_build("./cmd/net")
+    out = []
+    n = 0
+    for f in sorted(glob.glob(os.path.join(common.SPEC, "scripts", "net_*.json"))):
+        d = json.load(open(f))
+        sf = ctx.path(os.path.basename(f) + ".ndjson"); open(sf, "w").write(json.dumps(dict(script=d["script"])) + "\n")
+        cf = ctx.path(os.path.basename(f) + ".cfg.json"); json.dump(d["config"], open(cf, "w"))
+        of = ctx.path(os.path.basename(f) + ".res.json")
+        p = ctx.run([binp, sf, cf, of], timeout=300)
+        if not os.path.exists(of):
+            raise Inconclusive("net harness failed on %s (rc=%d): %s" % (f, p.returncode, p.stderr[-800:]))
+        res = json.load(open(of))
+        if res.get("harness_errors"):
+            raise Inconclusive("net harness error on %s: %s" % (f, res["harness_errors"][:2]))
+        n += 1
+        for v in res.get("violations") or []:
+            out.append(dict(v, script=os.path.basename(f)))
+    log("[net] fixed scripts replayed: %d, violations %s" % (n, [v["key"] for v in out]))
+    return n, out
+
+
 def run_net(ctx, keys_for_pid, scripts_cap=None, parts=("honest_exh", "honest_sim", "byz_exh", "byz_sim")):
     quick = ctx.tier == "quick"
     binp = ctx.go_build("./cmd/net")
@@ -71,11 +96,9 @@ def run_net(ctx, keys_for_pid, scripts_cap=None, parts=("honest_exh", "honest_si
                     if sample is None and any(s.get("sync") == "switch" for s in d["script"]):
                         sample = d["script"]
         cf = ctx.path(name + "_cfg.json"); json.dump(hcfg, open(cf, "w"))
-        of = ctx.path(name + "_res.json")
-        p = ctx.run([binp, sf, cf, of], timeout=3000)
-        if not os.path.exists(of):
+        res, p = common.run_chunked(ctx, sf, 400, lambda piece, of: [binp, piece, cf, of])
+        if res is None:
             raise Inconclusive("net harness failed (rc=%d): %s" % (p.returncode, p.stderr[-1500:]))
-        res = json.load(open(of))
         if res.get("harness_errors"):
             raise Inconclusive("net harness error: %s" % res["harness_errors"][:2])
         for k in total:
